@@ -108,6 +108,7 @@ def unwrapped_value_locals(body, local, depth=0):
     return out
 
 
+INT_TYS = ("u8", "u16", "u32", "u64", "u128", "usize", "i8", "i16", "i32", "i64", "i128", "isize", "char")
 CMP_FLIP = {"Lt": "Gt", "Gt": "Lt", "Le": "Ge", "Ge": "Le", "Eq": "Eq", "Ne": "Ne"}
 CMP_NEG = {"Lt": "Ge", "Gt": "Le", "Le": "Gt", "Ge": "Lt", "Eq": "Ne", "Ne": "Eq"}
 
@@ -122,7 +123,7 @@ def branch_conditions(body, prov):
     cache = body.__dict__.setdefault("_guard_cache", {})
     if key in cache:
         return cache[key]
-    base = direct_branch_conditions(body, prov) + checked_sub_conditions(body, prov)
+    base = direct_branch_conditions(body, prov) + checked_sub_conditions(body, prov) + payload_conditions(body, prov)
     out = base + via_bool_locals(body, prov, base)
     cache[key] = out
     return out
@@ -152,6 +153,141 @@ def checked_sub_conditions(body, prov):
                         if val == 0 and body.preds(tgt) == [bk]:
                             out.append((tgt, None, "Lt", a, c, bk))
     return out
+
+
+def canon(t, atoms=()):
+    """cancel ref/deref pairs at every depth, leaving the sub-terms in `atoms` (compared by identity) untouched"""
+    if not isinstance(t, tuple) or not t or not isinstance(t[0], str):
+        return t
+    if any(t is a for a in atoms):
+        return t
+    t = tuple(canon(x, atoms) if isinstance(x, tuple) and x and isinstance(x[0], str) else
+              (tuple(canon(y, atoms) for y in x) if isinstance(x, tuple) else x) for x in t)
+    if t[0] == "deref" and isinstance(t[1], tuple) and t[1] and t[1][0] == "ref":
+        return t[1][1]
+    if t[0] == "ref" and isinstance(t[1], tuple) and t[1] and t[1][0] == "deref":
+        return t[1][1]
+    return t
+
+
+def rewrite(t, f):
+    """rebuild term t bottom-up, replacing every sub-term x for which f(x) is not None"""
+    if not isinstance(t, tuple) or not t or not isinstance(t[0], str):
+        return t
+    r = f(t)
+    if r is not None:
+        return r
+    return tuple(rewrite(x, f) if isinstance(x, tuple) and x and isinstance(x[0], str) else
+                 (tuple(rewrite(y, f) for y in x) if isinstance(x, tuple) else x) for x in t)
+
+
+def closure_truth(cb):
+    """comparisons (op, a, b), in the closure's own terms, that hold whenever the bool closure returns true: those whose edge
+    dominates every assignment of a result other than `false`, and the result expression itself when it is the only one and a comparison"""
+    import sym
+    pv = sym.Prov(cb)
+    if cb.local_ty(0) != "bool":
+        return []
+    true_sites = []
+    for bi in range(len(cb.blocks)):
+        if not cb.reachable(bi):
+            continue
+        for st in cb.stmts(bi):
+            if st["k"] == "assign" and st["p"]["l"] == 0 and not st["p"]["p"]:
+                v = sym.strip(pv.rvalue(st["rv"]))
+                if v[0] == "c" and v[1] in (0, False):
+                    continue
+                true_sites.append((bi, v))
+        t = cb.term(bi)
+        if t["k"] == "call" and t["dest"]["l"] == 0 and not t["dest"]["p"]:
+            true_sites.append((bi, None))
+    if not true_sites:
+        return []
+    out = []
+    for tb, fb, op, a, c, sw in direct_branch_conditions(cb, pv):
+        if tb is not None and all(cb.dominates(tb, bi) for bi, _ in true_sites):
+            out.append((op, a, c))
+        if fb is not None and all(cb.dominates(fb, bi) for bi, _ in true_sites) and CMP_NEG.get(op):
+            out.append((CMP_NEG[op], a, c))
+    if len(true_sites) == 1 and true_sites[0][1] is not None:
+        v = true_sites[0][1]
+        neg = False
+        while v[0] == "un" and v[1] == "Not":
+            neg = not neg
+            v = sym.strip(v[2])
+        if v[0] == "bin" and v[1] in CMP_FLIP:
+            out.append((CMP_NEG[v[1]] if neg else v[1], v[2], v[3]))
+    return out
+
+
+def payload_conditions(body, prov):
+    """`iter.find(|x| p(x))` / `opt.filter(|x| p(x))` hand out only values for which the predicate returned true: in every block that is
+    entered with the `Some` payload, the comparisons that hold whenever the closure returns true hold for the payload (closure
+    parameter -> payload, closure captures -> the captured values of the caller)."""
+    import sym
+    fx = getattr(body, "fx", None)
+    if fx is None:
+        return []
+    out = []
+    for bi, t in body.calls():
+        p = t["callee"].get("path") or ""
+        if not p.endswith(("Iterator::find", "Option::<T>::filter")) or len(t["args"]) != 2 or t["dest"]["p"]:
+            continue
+        clo = sym.strip(prov.op(t["args"][1]))
+        if not (clo[0] == "agg" and clo[1] == "closure" and clo[2]):
+            continue
+        cb = fx.body(clo[2])
+        if cb is None or cb.arg_count != 2:
+            continue
+        truths = closure_truth(cb)
+        if not truths:
+            continue
+        caps = clo[3]
+        call_term = prov.local(t["dest"]["l"])
+        payloads = [("field", ("variant", call_term, "Some"), "0")]
+        # `iter.find(..)?` in a function that returns Option: the payload is read through Try::branch
+        for bj, t2 in body.calls():
+            if (t2["callee"].get("path") or "").endswith("Try::branch") and t2["args"] and not t2["dest"]["p"]:
+                a0 = t2["args"][0]
+                if a0["k"] in ("copy", "move") and not a0["p"]["p"] and a0["p"]["l"] == t["dest"]["l"]:
+                    payloads.append(("field", ("variant", prov.local(t2["dest"]["l"]), "Continue"), "0"))
+        by_ref = (cb.local_ty(2) or "").startswith("&")
+        payload = payloads[0]
+
+        def sub(x):
+            if by_ref and x[0] == "deref" and x[1][0] == "arg" and x[1][1] == 2:
+                return payload
+            if not by_ref and x[0] == "arg" and x[1] == 2:
+                return payload
+            if x[0] == "field" and str(x[2]).isdigit() and int(x[2]) < len(caps):
+                base = x[1]
+                while base[0] in ("deref", "ref"):
+                    base = base[1]
+                if base[0] == "arg" and base[1] == 1:
+                    return caps[int(x[2])]
+            return None
+        sbs = success_blocks(body, t["dest"]["l"])
+        for payload in payloads:
+            for op, a, c in truths:
+                atoms = (payload,) + tuple(caps)
+                a2, c2 = canon(rewrite(a, sub), atoms), canon(rewrite(c, sub), atoms)
+                # a closure parameter or capture that could not be mapped leaves the fact unusable
+                if any(x[0] == "arg" for x in _walk(a2)) or any(x[0] == "arg" for x in _walk(c2)):
+                    if not all(_caller_arg(body, x) for x in list(_walk(a2)) + list(_walk(c2)) if x[0] == "arg"):
+                        continue
+                for sb in sbs:
+                    out.append((sb, None, op, a2, c2, bi))
+    return out
+
+
+def _walk(t):
+    import sym
+    return sym.walk(t)
+
+
+def _caller_arg(body, x):
+    # after substitution an ('arg', n, name) term must denote a parameter of the *caller*: it came in through a capture
+    return 1 <= x[1] <= body.arg_count and body.local_name(x[1]) == x[2]
 
 
 def _acyclic(body, region):
@@ -287,6 +423,16 @@ def direct_branch_conditions(body, prov):
         if t["k"] != "switch" or not body.reachable(bi):
             continue
         if t.get("dty") != "bool":
+            # `match n { 0 => .., 7 => .., other => .. }` on an integer: each arm is `n == k`, the fall-through arm `n != k` for every k
+            if t.get("dty") in INT_TYS:
+                d = prov.op(t["discr"])
+                if d[0] != "discr":
+                    oth = t["otherwise"] if body.preds(t["otherwise"]) == [bi] and body.term(t["otherwise"])["k"] != "unreachable" else None
+                    for val, tgt in t["arms"]:
+                        k = ("c", val, t["dty"], "%s_%s" % (val, t["dty"]))
+                        tb_ = tgt if body.preds(tgt) == [bi] else None
+                        if tb_ is not None or oth is not None:
+                            out.append((tb_, oth, "Eq", d, k, bi))
             continue
         term = prov.op(t["discr"])
         neg = False
